@@ -90,4 +90,24 @@ theorem computeUsage_eq (bat : List Nat) :
   rw [usage_fold bat 0 0 0]
   try (first | rfl | grind)
 
+
+/-! ### the integer encoders of the tokenizer and of the converter (`bytes([...])` of masked values) -/
+
+theorem toUint8_eq (v : Nat) : Gen.Fn.toUint8 v = [v % 256] := by
+  unfold Gen.Fn.toUint8
+  simp only [and255]
+
+theorem toUint16_eq (v : Nat) : Gen.Fn.toUint16 v = Basic.u16 v := by
+  unfold Gen.Fn.toUint16 Basic.u16
+  simp only [and255]
+
+theorem convToUint16_eq (v : Nat) : Gen.Fn.convToUint16 v = Basic.u16 v := by
+  unfold Gen.Fn.convToUint16 Basic.u16
+  simp only [and255]
+
+theorem bytesFromUint_eq (v : Nat) : Gen.Fn.bytesFromUint v = Basic.bytesFromUint v := by
+  unfold Gen.Fn.bytesFromUint Basic.bytesFromUint
+  simp only [toUint8_eq, toUint16_eq, Basic.u16]
+  first | rfl | grind
+
 end Moto.GenFn
